@@ -1404,6 +1404,9 @@ fn check_selection(case: &SelCase, ctx: &mut Ctx) -> Verdict {
     let near = |a: f64, b: f64| rel_close(a, b, 1e-9);
     if r.tainted_p >= reject {
         ctx.classify("stage:tainted>=reject (no calibration)");
+        if r.tainted_p == reject && reject < 1.0 {
+            ctx.classify("stage:tainted==reject exactly (< 1)");
+        }
         ensure!(
             r.adjusted_p == 1.0,
             "C20/selection/reject-exit/not-no-evidence",
